@@ -29,6 +29,7 @@
 #include <deque>
 #include <memory>
 #include <time.h>
+#include <pthread.h>
 
 using namespace verif;
 using namespace c15;
@@ -269,6 +270,36 @@ struct World {
   }
 };
 
+// Non-termination is part of the property, so it must become an ordinary captured failure quickly and independently of the
+// machine's load: a helper thread watches the CPU time the main thread spends inside one onUdpRecv call and, after 5 s,
+// saves the case as a hang (exit status 3, like the common per-case watchdog).
+struct CpuWatchdog {
+  std::atomic<int64_t> armed_ns{0};
+  clockid_t cid;
+  bool started = false;
+  static int64_t ns(clockid_t c) { struct timespec ts; clock_gettime(c, &ts); return (int64_t)ts.tv_sec * 1000000000ll + ts.tv_nsec; }
+  void arm() {
+    if (!started) {
+      started = true;
+      pthread_getcpuclockid(pthread_self(), &cid);
+      std::thread([this] {
+        for (;;) {
+          std::this_thread::sleep_for(std::chrono::milliseconds(100));
+          int64_t a = armed_ns.load();
+          if (a != 0 && ns(cid) - a > 5000000000ll) {
+            fprintf(stderr, "\nC15: onUdpRecv has used more than 5 s of CPU on one datagram: treated as non-termination\n");
+            dump_current_case("hang");
+            syscall(SYS_exit_group, 3);
+          }
+        }
+      }).detach();
+    }
+    armed_ns.store(ns(cid) | 1);
+  }
+  void disarm() { armed_ns.store(0); }
+};
+CpuWatchdog &cpuWatchdog() { static CpuWatchdog w; return w; }
+
 double cpuSeconds() { struct timespec ts; clock_gettime(CLOCK_THREAD_CPUTIME_ID, &ts); return (double)ts.tv_sec + (double)ts.tv_nsec * 1e-9; }
 
 const char *statusName(DnsRequest::Result::Status s) {
@@ -301,7 +332,9 @@ std::string feedOne(World &W, const Bytes &dg, const Cfg &cfg, CaseInfo &info, F
 
   W.cbs = 0;
   double t0 = cpuSeconds();
+  cpuWatchdog().arm();
   W.dns->feed(buf.get(), n, SockAddr(deadServer(), 53));
+  cpuWatchdog().disarm();
   double cpu = cpuSeconds() - t0;
   auto where = [&]() { return " [datagram " + std::to_string(n) + " bytes: " + hexOf(buf.get(), n) + "; reference: " + (ref.strict ? "well-formed" : ref.why) + "]"; };
   if (getenv("C15_TRACE")) {
